@@ -186,7 +186,7 @@ def r09_2(ctx, m):
                     raw_ok = True
                     continue
                 # decode / rstrip of the raw line keep it 'raw'
-                if src in (f"{lv}.rstrip()", f"{lv}.decode('utf-8').rstrip()", f"{lv}.decode('utf8').rstrip()", f"{lv}.decode().rstrip()", f"{lv}.rstrip('\\n')", f"{lv}.decode('utf-8').rstrip('\\n')"):
+                if _keeps_raw(v, lv):
                     continue
             b.feed(e)
         t = b.env.get(lv)
@@ -196,6 +196,21 @@ def r09_2(ctx, m):
         want = check_template(ctx, m, f, t, p)
         n_ok += 1
     ctx.require_count("R09.2", n_ok, 1, f.where(m.pass2), "paths building the output line")
+
+
+def _keeps_raw(v, lv):
+    """`v` is the line variable `lv` under a chain of decode(...) / rstrip() / rstrip('\n'): still the raw line"""
+    n = 0
+    while isinstance(v, ast.Call) and isinstance(v.func, ast.Attribute):
+        if v.func.attr == "decode" and all(const_value(a, None) in ("utf-8", "utf8", "UTF-8") for a in v.args) and not v.keywords:
+            pass
+        elif v.func.attr == "rstrip" and (not v.args or (len(v.args) == 1 and const_value(v.args[0], None) in ("\n", "\r\n", "\n\r"))) and not v.keywords:
+            pass
+        else:
+            return False
+        v = v.func.value
+        n += 1
+    return n > 0 and isinstance(v, ast.Name) and v.id == lv
 
 
 def check_template(ctx, m, f, t, p):
